@@ -280,6 +280,21 @@ def conformance(ob, grid, sizes, seed):
     except Exception as e:      # noqa: BLE001
         # the REAL code raises on this (valid) input: that is a finding about the code, not about the model
         raise NativeFailure('%s: %s' % (type(e).__name__, e), list(sizes), seed)
+    # the builders are verified against the mesh CONTRACT (well_formed); natively the mesh comes from the real
+    # constructor: if that one breaks the contract (owner: C10) every property resting on it is broken natively too
+    m = getattr(wr, '_mesh', None)
+    if m is not None:
+        for a in range(nd):
+            f = real_np.asarray(getattr(m.facecenters, '_' + AX[a]), dtype=float)
+            cs = real_np.asarray(getattr(m.cellsize, '_' + AX[a]), dtype=float)
+            cc = real_np.asarray(getattr(m.cellcenters, '_' + AX[a]), dtype=float)
+            d = real_np.diff(f)
+            want = real_np.concatenate([d[:1], d, d[-1:]])
+            if cs.shape != want.shape or not real_np.allclose(cs, want, rtol=1e-12, atol=0) \
+                    or not real_np.allclose(cc, (f[1:] + f[:-1]) / 2, rtol=1e-12, atol=1e-300):
+                raise NativeFailure('the real mesh constructor violates well_formed(mesh) on axis %s (cell sizes %s, '
+                                    'expected %s): the builder contracts assume it (C10)' % (AX[a], cs.tolist()[:6], want.tolist()[:6]),
+                                    list(sizes), seed)
     sizes3 = list(sizes) + [1] * (3 - len(sizes))
     env = Env(sizes3, wr.src.values)
 
